@@ -247,6 +247,12 @@ def gen(rng, tier):
         else:
             yield dict(kind="reuse", rows=rows, arity=a, ctrl=ctrl, obs_given=True, mask_given=True, tmap=None, smap=None,
                        sel=[rng.random() < 0.5 for _ in rows])
+    for _ in range(24 * N):     # treatment names that differ from the control name only in letter case / by a blank: NOT controls
+        ctrl = rng.choice(["DMSO", "control", "Ctrl", "\u00c9talon"])
+        near = [ctrl.lower(), ctrl.upper(), ctrl.capitalize(), ctrl.swapcase(), ctrl + " ", " " + ctrl]
+        names = [x for x in dict.fromkeys(near) if x != ctrl][:rng.randint(1, 4)] + rng.sample(sl.NAMES, 2) + [ctrl]
+        rows, a = sl.gen_rows(rng, n=rng.choice([3, 4, 6, 8, 10]), names=names, ctrl=ctrl)
+        yield dict(kind="ctor", rows=rows, arity=a, ctrl=ctrl, obs_given=True, mask_given=True, tmap=None, smap=None)
     for _ in range(100 * N):
         ctrl = rng.choice(sl.CTRLS)
         rows, a = sl.gen_rows(rng, n=rng.choice([2, 3, 4, 6, 8]), ctrl=ctrl)
